@@ -165,7 +165,7 @@ def e14(ctx: Ctx):
     ctx.ob("assignment-shortcut:target", bool(okv), "" if okv else f"set_var is called as `{unparse(sv)}`", file=VISITORS_REL, line=sv.lineno)
 
 
-@rule("P9", "FLAG-MONOTONE: a detector pass only ever raises its flag (what one DATA/HBUFF/JOYSTK occurrence found is not forgotten at the next)", ["C03", "C04"], floor=3)
+@rule("P9", "FLAG-MONOTONE: a detector pass only ever raises its flag (what one DATA/HBUFF/JOYSTK occurrence found is not forgotten at the next)", ["C03", "C04", "C20"], floor=3, default_props=["C03", "C04"])
 def p9(ctx: Ctx):
     py = pyfacts(ctx)
     for cls in sorted(py.subclasses("BasicConstructVisitor")):
@@ -188,12 +188,12 @@ def p9(ctx: Ctx):
                             from .pyast import ast_contains as _ac
 
                             okeq = _ac(fn, "$e.literal == ''") or _ac(fn, "'' == $e.literal") or _ac(fn, "not $e.literal")
-                            ctx.ob(f"{cls}.{fl}@{name}:test", okeq, "" if okeq else "the detector no longer looks for DATA items equal to the empty string", file=ci.module, line=s.lineno, props=["C03"])
+                            ctx.ob(f"{cls}.{fl}@{name}:test", okeq, "" if okeq else "the detector no longer looks for DATA items equal to the empty string", file=ci.module, line=s.lineno, props=["C03", "C20"])
                         ctx.ob(
                             f"{cls}.{fl}@{name}",
                             mono,
                             "" if mono else f"`{cls}.{name}` assigns `{unparse(v)}` to the detector flag `{fl}`: a later occurrence without the feature resets what an earlier one found (only the last DATA line / statement visited decides)",
                             file=ci.module,
                             line=s.lineno,
-                            props=["C03"] if "data" in name else ["C04"],
+                            props=["C03", "C20"] if "data" in name else ["C04"],
                         )
